@@ -3,10 +3,11 @@
 use std::io::{self, BufRead, Cursor, Read};
 
 use noodles_bgzf::{self as bgzf, gzi};
+use noodles_csi::{self as csi, binning_index::index::reference_sequence::bin::Chunk};
 use tokio::io::{AsyncBufReadExt, AsyncReadExt};
-use vcore::{Rng, aadv::PollRead, bgzf as obgzf, rng::fnv1a};
+use vcore::{Rng, bgzf as obgzf, rng::fnv1a};
 
-use crate::rd::bgzf_reader;
+use crate::{bread::Src, rd::bgzf_reader};
 
 #[derive(Clone, Debug)]
 pub enum Op {
@@ -16,6 +17,22 @@ pub enum Op {
     Seek(u64),
     SeekU(u64),
     ReadToEnd,
+    /// async: the `poll_seek` path (what `AsyncSeek`-style callers and `csi::async::io::Query` use), not `async fn seek`;
+    /// sync: `seek`
+    PollSeek(u64),
+    /// `csi::io::Query` / `csi::async::io::Query` over the given chunks (start, end virtual positions), consumed window by
+    /// window (fill_buf + consume of the whole window)
+    Query(Vec<(u64, u64)>),
+}
+
+impl Op {
+    pub fn is_seek(&self) -> bool {
+        matches!(self, Op::Seek(_) | Op::SeekU(_) | Op::PollSeek(_) | Op::Query(_))
+    }
+}
+
+fn chunks_of(c: &[(u64, u64)]) -> Vec<Chunk> {
+    c.iter().map(|(s, e)| Chunk::new(bgzf::VirtualPosition::from(*s), bgzf::VirtualPosition::from(*e))).collect()
 }
 
 /// What one operation showed. `vpos` is the virtual position after the operation, `ret` the virtual position a `seek`
@@ -29,6 +46,9 @@ pub struct Obs {
     pub len: usize,
     pub vpos: u64,
     pub ret: Option<u64>,
+    /// `Op::Query`: the bytes themselves (how far a Query runs past a chunk end that lies on a member boundary depends
+    /// on the schedule; the caller checks them against the chunk model when the two sides differ)
+    pub bytes: Option<Vec<u8>>,
 }
 
 fn name(op: &Op) -> String {
@@ -39,6 +59,8 @@ fn name(op: &Op) -> String {
         Op::Seek(v) => format!("seek({}:{})", v >> 16, v & 0xffff),
         Op::SeekU(p) => format!("seek_by_uncompressed_position({p})"),
         Op::ReadToEnd => "read_to_end".into(),
+        Op::PollSeek(v) => format!("poll_seek({}:{})", v >> 16, v & 0xffff),
+        Op::Query(c) => format!("csi-query({})", c.iter().map(|(s, e)| format!("{}:{}-{}:{}", s >> 16, s & 0xffff, e >> 16, e & 0xffff)).collect::<Vec<_>>().join(",")),
     }
 }
 
@@ -47,15 +69,16 @@ fn observe(out: &mut Vec<Obs>, op: &Op, res: io::Result<Vec<u8>>, vpos: u64) -> 
         Ok(b) => {
             let o = match op {
                 // the returned virtual position is kept as a value, not as bytes
-                Op::Seek(_) => Obs { op: name(op), result: "ok".into(), hash: 0, len: 0, vpos, ret: b.get(..8).map(|x| u64::from_le_bytes(x.try_into().unwrap())) },
-                _ => Obs { op: name(op), result: "ok".into(), hash: fnv1a(&b), len: b.len(), vpos, ret: None },
+                Op::Seek(_) | Op::PollSeek(_) => Obs { op: name(op), result: "ok".into(), hash: 0, len: 0, vpos, ret: b.get(..8).map(|x| u64::from_le_bytes(x.try_into().unwrap())), bytes: None },
+                Op::Query(_) => Obs { op: name(op), result: "ok".into(), hash: fnv1a(&b), len: b.len(), vpos, ret: None, bytes: Some(b) },
+                _ => Obs { op: name(op), result: "ok".into(), hash: fnv1a(&b), len: b.len(), vpos, ret: None, bytes: None },
             };
             out.push(o);
             true
         }
         // nothing is required of the position after an error; the history stops there
         Err(e) => {
-            out.push(Obs { op: name(op), result: format!("err:{:?}", e.kind()), hash: 0, len: 0, vpos: 0, ret: None });
+            out.push(Obs { op: name(op), result: format!("err:{:?}", e.kind()), hash: 0, len: 0, vpos: 0, ret: None, bytes: None });
             false
         }
     }
@@ -90,6 +113,20 @@ pub fn drive_sync(file: &[u8], index: &gzi::Index, ops: &[Op]) -> Vec<Obs> {
                 let mut v = Vec::new();
                 r.read_to_end(&mut v).map(|_| v)
             }
+            Op::PollSeek(v) => r.seek(bgzf::VirtualPosition::from(*v)).map(|v| u64::from(v).to_le_bytes().to_vec()),
+            Op::Query(c) => (|| -> io::Result<Vec<u8>> {
+                let mut q = csi::io::Query::new(&mut r, chunks_of(c));
+                let mut v = Vec::new();
+                loop {
+                    let w = q.fill_buf()?;
+                    if w.is_empty() {
+                        return Ok(v);
+                    }
+                    let n = w.len();
+                    v.extend_from_slice(w);
+                    q.consume(n);
+                }
+            })(),
         };
         let vpos = u64::from(r.virtual_position());
         if !observe(&mut out, op, res, vpos) {
@@ -99,7 +136,7 @@ pub fn drive_sync(file: &[u8], index: &gzi::Index, ops: &[Op]) -> Vec<Obs> {
     out
 }
 
-pub async fn drive_async(src: PollRead, workers: usize, index: gzi::Index, ops: Vec<Op>) -> Vec<Obs> {
+pub async fn drive_async(src: Src, workers: usize, index: gzi::Index, ops: Vec<Op>) -> Vec<Obs> {
     let mut r = bgzf_reader(src, workers);
     let mut out = Vec::new();
     let mut buf = Vec::new();
@@ -127,6 +164,26 @@ pub async fn drive_async(src: PollRead, workers: usize, index: gzi::Index, ops: 
             Op::ReadToEnd => {
                 let mut v = Vec::new();
                 r.read_to_end(&mut v).await.map(|_| v)
+            }
+            Op::PollSeek(v) => {
+                let pos = bgzf::VirtualPosition::from(*v);
+                let mut rr = &mut r;
+                std::future::poll_fn(|cx| std::pin::Pin::new(&mut rr).poll_seek(cx, pos)).await.map(|v| u64::from(v).to_le_bytes().to_vec())
+            }
+            Op::Query(c) => {
+                let mut q = csi::r#async::io::Query::new(&mut r, chunks_of(c));
+                let mut v = Vec::new();
+                loop {
+                    match q.fill_buf().await {
+                        Ok(w) if w.is_empty() => break Ok(v),
+                        Ok(w) => {
+                            let n = w.len();
+                            v.extend_from_slice(w);
+                            q.consume(n);
+                        }
+                        Err(e) => break Err(e),
+                    }
+                }
             }
         };
         let vpos = u64::from(r.virtual_position());
@@ -158,8 +215,58 @@ pub fn gen_ops(rng: &mut Rng, walk: &obgzf::Walk, file_len: usize, n_ops: usize)
         ops.push(Op::Seek(obgzf::vpos(st, 0)));
         ops.push(Op::Read(5));
     }
+    // deterministic witnesses around EMPTY members that are followed by data (EOF markers of concatenated files, flushes of
+    // nothing, runs of empty members): poll_seek / csi Query to the empty member itself (the position a writer reports at
+    // the end of the part before it) and to the member behind it, then reads that show the positions of the following members
+    let ms = &walk.members;
+    let later = |i: usize, rng: &mut Rng| -> u64 {
+        // a chunk end two..four members on: a member start or a position inside a non-empty member
+        let j = (i + 2 + rng.usize_below(3)).min(ms.len() - 1);
+        if ms[j].data.is_empty() || rng.bool() { obgzf::vpos(ms[j].offset, 0) } else { obgzf::vpos(ms[j].offset, rng.usize_below(ms[j].data.len()) as u16) }
+    };
+    let empties: Vec<usize> = (0..ms.len()).filter(|&i| ms[i].data.is_empty() && ms[i + 1..].iter().any(|m| !m.data.is_empty())).collect();
+    for &i in empties.iter().take(6) {
+        let at = obgzf::vpos(ms[i].offset, 0);
+        ops.push(Op::PollSeek(at));
+        ops.push(Op::FillConsume(3));
+        ops.push(Op::FillConsume(usize::MAX));
+        ops.push(Op::FillConsume(usize::MAX));
+        ops.push(Op::Query(vec![(at, later(i, rng))]));
+        ops.push(Op::Read(7));
+        if i + 1 < ms.len() {
+            let behind = obgzf::vpos(ms[i + 1].offset, 0);
+            ops.push(Op::PollSeek(behind));
+            ops.push(Op::FillConsume(usize::MAX));
+            ops.push(Op::FillConsume(1));
+            ops.push(Op::Query(vec![(behind, later(i + 1, rng)), (at, later(i, rng))]));
+        }
+        if i > 0 {
+            // a chunk that ENDS at the empty member and one that starts there
+            let before = obgzf::vpos(ms[i - 1].offset, 0);
+            ops.push(Op::Query(vec![(before, at), (at, later(i, rng))]));
+        }
+    }
     for _ in 0..n_ops {
-        let op = match rng.below(14) {
+        let op = match rng.below(18) {
+            14..=15 => Op::PollSeek(match rng.below(3) {
+                0 if !inside.is_empty() => {
+                    let (off, len) = *rng.pick(&inside);
+                    obgzf::vpos(off, rng.usize_below(len) as u16)
+                }
+                _ => obgzf::vpos(*rng.pick(&starts), 0),
+            }),
+            16..=17 if ms.len() >= 2 => {
+                let mut c = Vec::new();
+                let mut i = rng.usize_below(ms.len());
+                for _ in 0..rng.urange(1, 3) {
+                    let s = if ms[i].data.is_empty() || rng.bool() { obgzf::vpos(ms[i].offset, 0) } else { obgzf::vpos(ms[i].offset, rng.usize_below(ms[i].data.len()) as u16) };
+                    let e = later(i.min(ms.len() - 1), rng).max(s);
+                    c.push((s, e));
+                    i = (i + 1 + rng.usize_below(4)).min(ms.len() - 1);
+                }
+                Op::Query(c)
+            }
+            16..=17 => Op::Read(3),
             0..=3 => Op::Read(*rng.pick(&[0usize, 1, 2, 7, 100, 4000, 65535, 65536, 70000, 131072])),
             4..=5 => Op::ReadExact(*rng.pick(&[0usize, 1, 3, 50, 3000, 65536, 100000])),
             6..=7 => Op::FillConsume(*rng.pick(&[0usize, 1, 10, 5000, 70000])),
